@@ -1,5 +1,6 @@
 import IgrisModel.C02.Lemmas
 import IgrisModel.C02.Bisect
+import IgrisModel.C02.Flat
 /-!
   C02 — property theorems.
 
@@ -368,8 +369,103 @@ theorem construct_over_object_faults : construct ((Buf.fresh 2).put 0 .moved) 0 
 theorem dealloc_with_object_faults : deallocOk ((Buf.fresh 1).put 0 (.live 3)) 1 = false := by
   simp [deallocOk, Buf.allRaw, Buf.fresh, Buf.put]
 
-/-! ### flat_map (only the repaired constructor is stated here; the lookup operations are tied to
-    std::map by the correspondence run, see notes/C02.md) -/
+/-! ### the bisection routines (std::upper_bound / std::lower_bound as written in libstdc++) -/
+
+/-- vector::insert_sorted: over the block of a vector holding the sorted sequence `xs`, the modelled
+    `std::upper_bound` loop reads only constructed elements (no fault) and returns the first index whose
+    element is greater than the item (`ubSpec`, = `xs.length` if there is none) -/
+theorem upper_bound_is_spec {v : Vec} {xs : List Val} (h : Rep v xs) (hs : xs.Pairwise (· ≤ ·)) (x : Val) {b : Buf}
+    (hb : v.data = some b) :
+    upperBound b x v.size 0 v.size = some (ubSpec x xs) ∧ ubSpec x xs ≤ xs.length ∧
+    (∀ i (hi : i < xs.length), i < ubSpec x xs → ¬ x < xs[i]) ∧
+    (∀ hi : ubSpec x xs < xs.length, x < xs[ubSpec x xs]) :=
+  ⟨upperBound_sorted h hs x hb, ubSpec_le x xs, fun _ hi hlt => not_lt_of_lt_ubSpec hlt hi, fun hi => lt_at_ubSpec hi⟩
+
+example : ∃ v xs b, Rep v xs ∧ xs.Pairwise (· ≤ ·) ∧ v.data = some b ∧ xs = [1, 3, 3, 7] :=
+  ⟨vecOf 4 [1, 3, 3, 7], _, _, Rep.mk (by decide), by decide, rfl, rfl⟩
+
+/-- flat_set::insert / count: on a sorted storage the modelled `std::lower_bound` loop returns the first
+    index whose element is not less than the key (`lbSpec`) -/
+theorem lower_bound_is_spec (xs : List Int) (k : Int) (hs : xs.Pairwise (· ≤ ·)) :
+    lowerBound xs k xs.length 0 xs.length = lbSpec k xs ∧ lbSpec k xs ≤ xs.length ∧
+    (∀ i (hi : i < xs.length), i < lbSpec k xs → xs[i] < k) ∧
+    (∀ hi : lbSpec k xs < xs.length, ¬ xs[lbSpec k xs] < k) :=
+  ⟨lowerBound_sorted xs k hs, lbSpec_le k xs, fun _ hi hlt => lt_of_lt_lbSpec hlt hi, fun hi => not_lt_at_lbSpec hi⟩
+
+example : ([1, 3, 3, 7] : List Int).Pairwise (· ≤ ·) ∧ lowerBound [1, 3, 3, 7] 3 4 0 4 = 1 ∧
+    lowerBound [1, 3, 3, 7] 8 4 0 4 = 4 := by decide
+
+/-- flat_map::insert: on a storage sorted by key the modelled `std::upper_bound` loop returns `ubSpec` of
+    the keys; on any storage (operator[] and emplace append at the end, so it need not be sorted) the
+    position stays inside `[0, size]` -/
+theorem map_upper_bound_is_spec (m : List (Int × Int)) (k : Int) :
+    mapUpper m k m.length 0 m.length ≤ m.length ∧
+    ((keysOf m).Pairwise (· ≤ ·) → mapUpper m k m.length 0 m.length = ubSpec k (keysOf m)) :=
+  ⟨mapUpper_le m k, mapUpper_sorted m k⟩
+
+example : (keysOf [(1, 10), (4, 40)]).Pairwise (· ≤ ·) := by decide
+
+/-! ### flat_map against std::map, flat_set against std::set
+
+  Key order: `<` on `Int` (std::less<int>; a strict LINEAR order, the harness instantiates int keys and a
+  heap-owning key compared by its int).  std::map<int,int> = a partial function `Int → Option Int`
+  (`mapSpecNext` / `mapRetOk` in Flat.lean), std::set<int> = a membership predicate `Int → Bool`
+  (`setSpecNext` / `setRetOk`). -/
+
+/-- ONE OPERATION of flat_map.  If the storage holds every key once and `f` is the partial function it
+    stores, then the operation answers what std::map answers in state `f` (operator[] default-inserts 0 and
+    returns the mapped value, `m[k] = v` overwrites, insert/emplace do NOT overwrite and report the entry that
+    is in the map afterwards, find = the mapped value or end(), count ∈ {0,1}, at throws iff the key is
+    absent, size = number of keys) and the new storage again holds every key once and stores std::map's new
+    partial function. -/
+theorem flat_map_step_refines {m : FMap} {f : Int → Option Int} (h : MRep m f) (op : MOp) :
+    mapRetOk f op (m.step op).2 ∧ MRep (m.step op).1 (mapSpecNext f op) := mapStep_refines h op
+
+example : MRep {} (fun _ => none) := MRep.empty
+
+/-- REFINEMENT (clause 3 of C02, flat_map).  For every initializer list `init` (duplicates allowed; `[]` =
+    the default-constructed map) and every history of operator[] (read and write), insert, emplace, find,
+    count, at, size, clear and re-initialisation, the answers of flat_map are the answers of std::map
+    constructed from the same list, and the final storage holds every key once with std::map's values. -/
+theorem flat_map_refines (init : List (Int × Int)) (ops : List MOp) :
+    MapHist (fun k => assoc k init) ops ((FMap.ofList init {}).run ops).2 ∧
+    MRep ((FMap.ofList init {}).run ops).1 (mapSpecRun (fun k => assoc k init) ops) :=
+  mapRun_refines ((ofList_rep init MRep.empty).ext (by funext k; simp)) ops
+
+/-- the same from any state that satisfies the invariant -/
+theorem flat_map_refines_from {m : FMap} {f : Int → Option Int} (h : MRep m f) (ops : List MOp) :
+    MapHist f ops (m.run ops).2 ∧ MRep (m.run ops).1 (mapSpecRun f ops) := mapRun_refines h ops
+
+/-- what the model answers on a concrete history (the answers `flat_map_refines` speaks about) -/
+example : ((FMap.ofList [(1, 10), (1, 20), (3, 30)] {}).run
+      [.size, .insert 1 99, .index 2, .assign 2 7, .emplace 2 8, .emplace 0 5, .count 1, .at 4, .find 2, .size]).2 =
+    [.nat 2, .kv 1 10, .val 0, .unit, .flag false 7, .flag true 5, .nat 1, .throw, .opt (some 7), .nat 4] := by decide
+
+/-- INVARIANT: in every reachable state no key is stored twice, hence `count(k) ≤ 1` and
+    `size()` = number of distinct keys -/
+theorem flat_map_keys_unique (init : List (Int × Int)) (ops : List MOp) (k : Int) :
+    (keysOf ((FMap.ofList init {}).run ops).1.st).Nodup ∧ ((FMap.ofList init {}).run ops).1.count k ≤ 1 := by
+  have h := (flat_map_refines init ops).2
+  refine ⟨h.uniq, ?_⟩
+  rw [FMap.count, count_eq k _ h.uniq]
+  split <;> omega
+
+/-- flat_map::insert keeps a storage that is strictly sorted by key strictly sorted (a map filled by
+    `insert` alone therefore iterates in std::map's order; operator[] / emplace append at the end and do
+    not — iteration order is not part of C02) -/
+theorem flat_map_insert_keeps_sorted (m : FMap) (k v : Int) (hs : (keysOf m.st).Pairwise (· < ·)) :
+    (keysOf (m.insert k v).1.st).Pairwise (· < ·) := by
+  simp only [FMap.insert, find_eq_assoc]
+  cases hf : assoc k m.st with
+  | some w => exact hs
+  | none =>
+    simp only [keysOf_listInsert]
+    have e := mapUpper_sorted m.st k (sorted_le_of_lt hs)
+    simp only [keysOf] at e ⊢
+    rw [e]
+    exact sorted_insert_ub k _ hs ((assoc_none_iff k m.st).mp hf)
+
+example : (keysOf (FMap.ofList [(1, 10), (4, 40)] {}).st).Pairwise (· < ·) := by decide
 
 /-- before the fix `flat_map{{1,10},{1,20}}.count(1)` was 2 -/
 theorem flat_map_init_dup_orig_witness : (FMap.ofListOrig [(1, 10), (1, 20)]).count 1 = 2 := by decide
@@ -377,5 +473,34 @@ theorem flat_map_init_dup_orig_witness : (FMap.ofListOrig [(1, 10), (1, 20)]).co
 /-- after the fix the first entry of a key wins, like std::map -/
 theorem flat_map_init_dup_fixed :
     (FMap.ofList [(1, 10), (1, 20)] {}).count 1 = 1 ∧ (FMap.ofList [(1, 10), (1, 20)] {}).find 1 = some 10 := by decide
+
+/-- ONE OPERATION of flat_set.  If the storage is strictly increasing and holds exactly the members of `S`,
+    the operation answers what std::set answers (count = membership, iteration = the members in increasing
+    order, size = their number) and the new storage is again strictly increasing and holds exactly the
+    members of std::set's new set. -/
+theorem flat_set_step_refines {s : FSet} {S : Int → Bool} (h : SRep s S) (op : SOp) :
+    setRetOk S op (s.step op).2 ∧ SRep (s.step op).1 (setSpecNext S op) := setStep_refines h op
+
+example : SRep {} (fun _ => false) := SRep.empty
+
+/-- REFINEMENT (clause 3 of C02, flat_set).  For every history of insert, count, size, clear and iteration
+    from the empty set the answers of flat_set are the answers of std::set, and the storage is strictly
+    increasing (invariant) with exactly std::set's members. -/
+theorem flat_set_refines (ops : List SOp) :
+    SetHist (fun _ => false) ops (FSet.run {} ops).2 ∧
+    SRep (FSet.run {} ops).1 (setSpecRun (fun _ => false) ops) := setRun_refines SRep.empty ops
+
+theorem flat_set_refines_from {s : FSet} {S : Int → Bool} (h : SRep s S) (ops : List SOp) :
+    SetHist S ops (s.run ops).2 ∧ SRep (s.run ops).1 (setSpecRun S ops) := setRun_refines h ops
+
+example : (FSet.run {} [.insert 5, .insert 2, .insert 5, .insert 9, .count 5, .count 4, .size, .iter, .clear, .size]).2 =
+    [.unit, .unit, .unit, .unit, .nat 1, .nat 0, .nat 3, .keys [2, 5, 9], .unit, .nat 0] := by decide
+
+/-- "the members in increasing order" is a function of the set: two strictly increasing lists with the
+    same members are equal (so `setRetOk` fixes the answer of `iter` and `size` uniquely) -/
+theorem flat_set_enumeration_unique (a b : List Int) (ha : a.Pairwise (· < ·)) (hb : b.Pairwise (· < ·))
+    (h : ∀ j, j ∈ a ↔ j ∈ b) : a = b := sorted_enum_unique a b ha hb h
+
+example : ([2, 5, 9] : List Int).Pairwise (· < ·) := by decide
 
 end Igris.C02
